@@ -145,6 +145,8 @@ def menu(M, seen):
                 add({"op": "grouped_modify", "by": names[0], "name": fresh(M, "gm"), "extra": 1})
                 # a plain int for one-row groups, a float otherwise: the column must be able to hold both
                 add({"op": "grouped_modify", "by": names[0], "name": fresh(M, "gm"), "extra": 0, "mixed": True})
+                # two functions in one call: each new column gets ITS function's results
+                add({"op": "grouped_modify", "by": names[0], "name": fresh(M, "gm"), "extra": 0, "name2": fresh(M, "gn")})
         add({"op": "rbind_self"})
         add({"op": "rbind_partner"})
         # the very same object as receiver and argument
@@ -243,6 +245,8 @@ def adds_column(op, M):
         return 1
     if o in ("rbind_partner", "left_join", "inner_join", "full_join"):
         return 3  # the partner's three new columns
+    if o == "grouped_modify" and op.get("name2"):
+        return 2
     if o in ("cbind", "update", "grouped_modify"):
         return 1
     return 0
@@ -389,6 +393,8 @@ def apply_real(d, M, op):
         g = d.copy().group_by(op["by"])
         if op.get("mixed"):
             return g.modify(**{op["name"]: (lambda x: x.nrow / 4 if x.nrow > 1 else 0)}), []
+        if op.get("name2"):
+            return g.modify(**{op["name"]: (lambda x: list(range(x.nrow))), op["name2"]: (lambda x: x.nrow + 10)}), []
         return g.modify(**{op["name"]: (lambda x: list(range(x.nrow + extra)))}), []
     if o == "rbind_self":
         return d.rbind(d), []
@@ -517,7 +523,11 @@ def apply_model(M, op):
         for i in range(M.nrow):
             members = [j for j in range(M.nrow) if key_eq(key[j], key[i])]
             vals.append((len(members) / 4 if len(members) > 1 else 0) if op.get("mixed") else members.index(i))
-        return M.modify(op["name"], vals), flags
+        M2 = M.modify(op["name"], vals)
+        if op.get("name2"):
+            sizes = [sum(1 for j in range(M.nrow) if key_eq(key[j], key[i])) + 10 for i in range(M.nrow)]
+            M2 = M2.modify(op["name2"], sizes)
+        return M2, flags
     if o == "rbind_self":
         return M.rbind([M]), flags
     if o == "cbind_self":
